@@ -12,7 +12,7 @@ Variable imports : list (string * nat).
 Definition fstep (acc : list mfunction) (f : fdesc) : res (list mfunction) :=
   let pr := function_proto imports f in
   match find (fkey_eqb pr) acc with
-  | Some old => if String.eqb (show_function old) (show_function pr) then ret acc else raise ERuntime
+  | Some old => if String.eqb (show_function old) (show_function pr) && String.eqb (f_vals old) (f_vals pr) then ret acc else raise ERuntime
   | None => ret (acc ++ [pr])%list end.
 
 Lemma find_key_none pr acc : find (fkey_eqb pr) acc = None -> ~ In (fkey pr) (map fkey acc).
@@ -22,13 +22,15 @@ Proof. intros H Hc. apply in_map_iff in Hc. destruct Hc as [x [Hk Hx]]. pose pro
 Lemma fold_inv : forall l acc r, foldM fstep l acc = inl r -> NoDup (map fkey acc) ->
   NoDup (map fkey r) /\ (forall x, In x acc -> In x r) /\
   (forall f, In f l -> exists old, In old r /\ fkey old = fkey (function_proto imports f) /\
-                                 show_function old = show_function (function_proto imports f)).
+                                 show_function old = show_function (function_proto imports f) /\
+                                 f_vals old = f_vals (function_proto imports f)).
 Proof.
   induction l as [|f t IH]; intros acc r H Hnd; cbn [foldM] in H.
   - inversion H; subst. repeat split; auto. intros f [].
   - apply bind_ok in H. destruct H as [acc' [Hs Ht]]. unfold fstep in Hs.
     destruct (find (fkey_eqb (function_proto imports f)) acc) as [old|] eqn:Ef.
     + destruct (String.eqb_spec (show_function old) (show_function (function_proto imports f))) as [Es|]; [|discriminate].
+      cbn [andb] in Hs. destruct (String.eqb_spec (f_vals old) (f_vals (function_proto imports f))) as [Ev|]; [|discriminate].
       inversion Hs; subst acc'. destruct (IH acc r Ht Hnd) as (H1 & H2 & H3). repeat split; auto.
       intros g [<-|Hg]; [|auto]. apply find_some in Ef. destruct Ef as [Hin Hk]. exists old. repeat split; auto.
       symmetry. now apply fkey_eqb_iff.
@@ -51,7 +53,8 @@ Proof. induction l as [|a l IH]; simpl; intros Hnd Hx Hy E; [contradiction|]. in
 Theorem to_model_functions b m : to_model b = inl m ->
   NoDup (map fkey (mfunctions m)) /\
   forall f, In f (b_funs b) -> exists d, In d (mfunctions m) /\ fkey d = fkey (function_proto (max_opset_policy (b_req b)) f) /\
-                                   show_function d = show_function (function_proto (max_opset_policy (b_req b)) f).
+                                   show_function d = show_function (function_proto (max_opset_policy (b_req b)) f) /\
+                                   f_vals d = f_vals (function_proto (max_opset_policy (b_req b)) f).
 Proof.
   unfold to_model. intros H. apply bind_ok in H. destruct H as [funs [Hf H]].
   destruct (struct_check (b_graph b)); [|discriminate]. simpl in H. destruct (forallb _ funs); [|discriminate]. inversion H; subst; simpl.
@@ -62,11 +65,11 @@ Qed.
 Theorem differing_bodies_rejected b f1 f2 : In f1 (b_funs b) -> In f2 (b_funs b) ->
   let i := max_opset_policy (b_req b) in
   fkey (function_proto i f1) = fkey (function_proto i f2) ->
-  show_function (function_proto i f1) <> show_function (function_proto i f2) ->
+  (show_function (function_proto i f1) <> show_function (function_proto i f2) \/ fd_vals f1 <> fd_vals f2) ->
   forall m, to_model b <> inl m.
 Proof.
   intros H1 H2 i Hk Hs m Hm. destruct (to_model_functions b m Hm) as (Hnd & Hall).
-  destruct (Hall f1 H1) as (d1 & Hd1 & Hk1 & Hs1). destruct (Hall f2 H2) as (d2 & Hd2 & Hk2 & Hs2).
+  destruct (Hall f1 H1) as (d1 & Hd1 & Hk1 & Hs1 & Hv1). destruct (Hall f2 H2) as (d2 & Hd2 & Hk2 & Hs2 & Hv2).
   assert (d1 = d2) by (apply (NoDup_map_inj fkey (mfunctions m)); auto; fold i in Hk1, Hk2; congruence).
-  subst d2. apply Hs. fold i in Hs1, Hs2. congruence.
+  subst d2. fold i in Hs1, Hs2, Hv1, Hv2. destruct Hs as [Hs|Hs]; apply Hs; [congruence|]. cbn [function_proto f_vals] in Hv1, Hv2. congruence.
 Qed.
